@@ -655,6 +655,12 @@ def store6(ctx) -> List[Ob]:
                                     guard = True
                     if not guard:
                         return False
+                    if len(conj) > 1:
+                        # isinstance(..) and <something else>: the propagation is conditional
+                        for k in A.walk_no_nested(ast.Module(s.body, [])):
+                            if isinstance(k, ast.Call) and (A.dotted(k.func) or "").split(".")[-1] == prop.name:
+                                cond_props.append((k, s))
+                        return False
                     for k in A.walk_no_nested(ast.Module(s.body, [])):
                         if isinstance(k, ast.Call) and (A.dotted(k.func) or "").split(".")[-1] == prop.name and k.args and isinstance(k.args[0], ast.Name) and k.args[0].id in carriers:
                             # the propagation itself must be unconditional inside the region guard
@@ -1043,6 +1049,17 @@ def store8(ctx) -> List[Ob]:
                 calls = method_calls(ast.Module(z.stmt.body, []), meth)
                 if calls and calls[0].args and A.unparse(calls[0].args[0]) == A.unparse(nm):
                     hit = z
+        callee = prog.cls("RegionBlock").methods.get(meth)
+        in_place = callee is not None and any(
+            isinstance(k, ast.Call) and (A.dotted(k.func) or "") in ("object.__setattr__", "setattr") and len(k.args) == 3 and A.unparse(k.args[0]) == "self" and isinstance(k.args[1], ast.Constant) and k.args[1].value == fld
+            for k in A.walk_no_nested(callee.node))
+        if hit is not None and not in_place:
+            # a copying method: the call site must use its result
+            cs = method_calls(ast.Module(hit.stmt.body, []), meth)
+            used = cs and not isinstance(A.parent(cs[0]), ast.Expr)
+            if not used:
+                out.append(bad("STORE-8", er.qualname, key, ctx.where(er, hit.stmt), f"RegionBlock.{meth} does not update the region in place (no object.__setattr__(self, '{fld}', ..)) and extract_region drops its result: the parent keeps naming a block that is no longer at its level"))
+                continue
         if hit is not None and cfg.dominates(cn, hit) or (hit is not None and follows(lambda z, h=hit: z is h)):
             out.append(ok("STORE-8", er.qualname, key, ctx.where(er, hit.stmt), f"parent's {fld} renamed to the region when it named the wrapped {fld} block"))
         else:
